@@ -713,6 +713,7 @@ LAYOUTS = {
     'L2x4g2b'  : dict(nodes=2, cores=4, gpus=2, blocked_cores=[0],
                       blocked_gpus=[1]),
     'L3x2g1a'  : dict(nodes=2, cores=2, gpus=1, agent_nodes=1),
+    'L1x4g3b0' : dict(nodes=1, cores=4, gpus=3, blocked_gpus=[0]),
     'L1x4lm'   : dict(nodes=1, cores=4, gpus=0, lfs=3, mem=3),
     'L1x2'     : dict(nodes=1, cores=2, gpus=0),
     'L1x4'     : dict(nodes=1, cores=4, gpus=0),
@@ -737,6 +738,10 @@ SHAPES = {
     'r2gh'  : T(ranks=2, cores_per_rank=1, gpus_per_rank=0.5),
     'r4gh'  : T(ranks=4, cores_per_rank=1, gpus_per_rank=0.5),
     'g1h'   : T(ranks=1, cores_per_rank=1, gpus_per_rank=1.5),
+    'r3gh'  : T(ranks=3, cores_per_rank=1, gpus_per_rank=0.5),
+    'r2g75' : T(ranks=2, cores_per_rank=1, gpus_per_rank=0.75),
+    'ta2'   : T(ranks=2, cores_per_rank=1, tags={'colocate': 'a'}),
+    'ta3'   : T(ranks=3, cores_per_rank=1, tags={'colocate': 'a'}),
     'r3g334': T(ranks=3, cores_per_rank=1, gpus_per_rank=0.334),
     'r4g251': T(ranks=4, cores_per_rank=1, gpus_per_rank=0.251),
     'l2'    : T(ranks=1, cores_per_rank=1, lfs_per_rank=2),
@@ -776,7 +781,7 @@ def app_slot(node, cores, gpus=(), index=None, lfs=0, mem=0):
 
 def mk_scenario(name, family, layout, shapes, bulks=None, cancel=None,
                 envs=None, scattered=True, oracle='base', max_completes=None,
-                sched=None, jsrun=False):
+                sched=None, jsrun=False, cancel_split=False):
     '''shapes: list of shape names or (name, extra dict)'''
     tasks = list()
     for i, sh in enumerate(shapes):
@@ -794,6 +799,7 @@ def mk_scenario(name, family, layout, shapes, bulks=None, cancel=None,
             'cancel': ['t%d' % i for i in cancel] if cancel else None,
             'envs': envs, 'scattered': scattered, 'oracle': oracle,
             'max_completes': max_completes, 'jsrun': jsrun,
+            'cancel_split': cancel_split,
             **({'sched': sched} if sched else {})}
 
 
@@ -833,7 +839,8 @@ def scenarios(ctx_pid, quick):
                 family, layout,
                 ','.join(s if isinstance(s, str) else s[0] + '*'
                          for s in shapes), bi,
-                '/x' + ','.join(map(str, kw['cancel'])) if kw.get('cancel')
+                '/x' + ','.join(map(str, kw['cancel'])) +
+                ('s' if kw.get('cancel_split') else '') if kw.get('cancel')
                 else '', '' if kw.get('scattered', True) else '/cont')
             out.append(mk_scenario(nm, family, layout, shapes, bulks=b, **kw))
 
@@ -867,6 +874,10 @@ def scenarios(ctx_pid, quick):
         for combo in itertools.product(['gh', 'r2gh', 'g1'], repeat=3):
             add('frac', 'L1x4g2', list(combo))
 
+    # a blocked GPU below the usable ones, ranks sharing the GPUs behind it
+    for combo in itertools.product(['r3gh', 'r2g75', 'gh', 'r4gh'], repeat=2):
+        add('frac', 'L1x4g3b0', list(combo))
+
     # shares which do not divide a GPU: k of them exceed it by a hair
     for combo in itertools.product(['r3g334', 'r4g251', 'gh'], repeat=2):
         if combo != ('gh', 'gh'):
@@ -893,6 +904,11 @@ def scenarios(ctx_pid, quick):
         add('rpn', 'L3x2', list(combo))
     for combo in itertools.product(['ta', 'tb', 'tax', 'c2'], repeat=3):
         add('tags', 'L3x2', list(combo))
+    # tagged tasks with several ranks: the tag's nodes are visited once
+    for combo in itertools.product(['ta2', 'ta3', 'ta', 'c1'], repeat=2):
+        if set(combo) & {'ta2', 'ta3'}:
+            add('tags', 'L3x2', list(combo))
+            add('tags', 'L1x4g2', list(combo))
     # a tag need not be a string (bag index 0)
     for combo in itertools.product(['t0', 'c2', 'ta'], repeat=3):
         if 't0' in combo:
@@ -950,6 +966,10 @@ def scenarios(ctx_pid, quick):
         add('prio', 'L1x4', combo, oracle='prio',
             bulk_kinds=[[[i] for i in range(len(combo))]])
 
+    for combo in (['c4', 'c2', 'p1c2'], ['c4', 'p1c2', 'c2'],
+                  ['c4', 'c1', 'p1']):
+        add('prio', 'L1x4', combo, oracle='prio', bulk_kinds=[[[0], [1, 2]]])
+
     # invalid / oversize requests --------------------------------------------------------
     for combo in itertools.product(['r0', 'c9', 'r9', 'c1', 'c2'], repeat=2):
         if set(combo) & {'r0', 'c9', 'r9'}:
@@ -968,6 +988,9 @@ def scenarios(ctx_pid, quick):
     for combo in (['env'], ['env', 'c1'], ['c2', 'env']):
         x = combo.index('env')
         add('cancel', 'L1x2', combo, cancel=[x], envs=['ve1'])
+    # two separate requests, one per waiting task, arriving back to back
+    add('cancel', 'L1x2', ['c2', 'c2', 'c1'], cancel=[1, 2], cancel_split=True)
+    add('cancel', 'L1x2', ['c2', 'c1', 'c1'], cancel=[1, 2], cancel_split=True)
     if not quick:
         add('cancel', 'L1x2', ['c2', 'c2', 'c2'], cancel=[1, 2])
 
@@ -980,7 +1003,7 @@ FAMILIES = {
     'C02': ('core', 'gpu', 'frac', 'lfsmem', 'rpn', 'tags', 'blocked',
             'cont', 'invalid', 'jsrun'),
     'C03': ('core', 'gpu', 'frac', 'lfsmem', 'app', 'cancel', 'cont',
-            'blocked', 'mass', 'jsrun'),
+            'blocked', 'mass', 'jsrun', 'prio'),
     'C04': ('core', 'gpu', 'prio', 'invalid', 'env', 'cancel', 'rpn', 'frac',
             'lfsmem', 'blocked'),
     'C08': ('cancel',),
